@@ -250,7 +250,7 @@ async def run_bt_async(D: dict, suspend: str = "sleep0", seed: int = 0, dup_subs
     rel = asyncio.create_task(releaser()) if suspend != "sleep0" else None
     outcome = "returned"
     try:
-        await asyncio.wait_for(d.run(stop_signals=[]), timeout=20)
+        await asyncio.wait_for(d.run(stop_signals=[]), timeout=120)
     except asyncio.TimeoutError:
         outcome = "timeout"
     except BaseException as e:  # noqa: BLE001
